@@ -310,9 +310,24 @@ def gen_ctx(rng):
     return c
 
 
+def _T():
+    import pypika.terms as T
+    return T
+
+
 def render_impl(t, c, ops=False):
     try:
         obj = build(t, ops=ops)
+        # history perturbation at term level (the statement-level one is harness/purity.py): the very object that is
+        # rendered for the comparison was rendered before, with a private parameter collector ("prepare, then log") and
+        # under foreign conventions; rendering is specified as a pure function of the tree and the conventions, so a
+        # decision cached on the object by its first rendering (seeded/C02-20: parentheses decided once) shows here
+        for pre in (dict(ctx_kwargs(c), parameter=_T().QmarkParameter()),
+                    dict(quote_char="`", secondary_quote_char='"', as_keyword=True)):
+            try:
+                obj.get_sql(**pre)
+            except Exception:  # noqa
+                pass
         return obj.get_sql(**ctx_kwargs(c))
     except Exception as e:  # noqa
         return "!" + type(e).__name__
